@@ -36,6 +36,7 @@ Import ListNotations.
 From Onet Require Import Net.RouterClose Net.RouterCloseProofs Net.CloseSeq Net.CloseSeqProofs.
 From Onet Require Import Corr.C10 Net.C10CheckProofs Net.CloseConc Net.CloseConcProofs.
 From Onet Require Import Net.SendClose Net.SendCloseProofs Net.StartClose Net.StartCloseProofs.
+From Onet Require Import Net.LocalClose Net.LocalCloseProofs.
 
 (* J1-J4 and their companions hold in every reachable state, for both variants *)
 Theorem c10_invariants : forall fx acts s, run fx init acts = Some s -> Inv fx s.
@@ -547,3 +548,53 @@ Theorem c10_start_close_unheld_example :
             ocloser s = OClosed /\ regs s = 0 /\ bounds s = 0 /\ readers s = 0 /\ starts s = [PGone].
 Proof. exact ctor_unheld_code. Qed.
 Print Assumptions c10_start_close_unheld_example.
+
+(* ---- closing an in-memory connection whose peer does not read its backlog ------- *)
+(* Net/LocalClose.v: one in-memory connection (two queues of [cap] packets and a forwarding
+   goroutine per endpoint), any number of Sends, one Close that waits for both forwarders while
+   holding the LocalManager's lock, other users of the manager.  nw = false is network/local.go
+   as it is (the forwarder watches closeCh while it pushes to the reader's queue), nw = true the
+   variant with a plain send. *)
+
+(* the code as it is, every interleaving, every backlog, reading peer or not: once Close has
+   been called a state without enabled internal action has Close returned Ok, the manager's lock
+   free and every Send returned *)
+Theorem c10_local_close_no_hang : forall cap acts s,
+  lrun false cap linit acts = Some s -> closer s <> LCIdle ->
+  (forall a, linternal a = true -> lstep false cap s a = None) ->
+  closer s = LCRet Ok /\ mlock s = false /\ forall t p, nth_error (lsenders s) t = Some p -> ldone p = true.
+Proof. exact local_close_no_hang. Qed.
+Print Assumptions c10_local_close_no_hang.
+
+(* ... and every internal step lowers a measure (both variants): such a state is reached *)
+Theorem c10_local_close_measure : forall nw cap s a s',
+  linternal a = true -> lstep nw cap s a = Some s' -> lmeas s' < lmeas s.
+Proof. exact local_close_measure. Qed.
+Print Assumptions c10_local_close_measure.
+
+(* while Close holds the manager's lock no other user of the manager gets anywhere *)
+Theorem c10_local_close_blocks_others : forall nw cap acts s,
+  lrun nw cap linit acts = Some s -> holds_lock (closer s) = true ->
+  lstep nw cap s LOther = None /\
+  forall t, nth_error (lsenders s) t = Some LSLookup -> lstep nw cap s (LSendLookup t) = None.
+Proof. exact local_close_blocks_others. Qed.
+Print Assumptions c10_local_close_blocks_others.
+
+(* the variant hangs: 260 unread packets (LocalMaxBuffer = 200), the peer's forwarder is parked on
+   its push, Close waits for it holding the lock - nothing internal is enabled, nobody gets the lock *)
+Theorem c10_local_close_plain_push_refuted :
+  exists s, lrun true 200 linit nw_witness = Some s /\
+            closer s = LCWaitB /\ mlock s = true /\ fwdB s = FPush /\ outq s = 200 /\ inq s = 59 /\
+            (forall a, linternal a = true -> lstep true 200 s a = None) /\
+            lstep true 200 s LOther = None.
+Proof. exact plain_push_refuted. Qed.
+Print Assumptions c10_local_close_plain_push_refuted.
+
+(* the schedule of the harness class on the code as it is *)
+Theorem c10_local_close_example :
+  exists s, lrun false 200 linit (backlog_schedule 200 2 260) = Some s /\
+            closer s = LCRet Ok /\ mlock s = false /\ others s = 1 /\ fwdB s = FDone /\
+            forallb (fun p => match p with LSDone Ok => true | _ => false end) (lsenders s) = true /\
+            length (lsenders s) = 262.
+Proof. exact backlog_schedule_ok. Qed.
+Print Assumptions c10_local_close_example.
